@@ -81,6 +81,10 @@ class CollectionValue(GenericValue):
         elif not isinstance(self._ast_node, ast.List):
             # the old value is no list (a tuple, set, dict, string ...)
             # and is replaced by the list of the tested values
+            if contains_unmanaged(self._old_value, self._ast_node):
+                # the parts which are controlled by the user can not be kept
+                # when the whole value is replaced
+                return
             new_value = self._new_value
             if any(not contains(self._old_value, v) for v in self._new_value):
                 flag = "fix"
